@@ -202,6 +202,36 @@ func SetMtime(path string, t time.Time) {
 	st.mu.Unlock()
 }
 
+// SnapshotMtimes / RestoreMtimes save and restore the shadow mtime table
+// (harnesses that rewind the disk after a dry run).
+func SnapshotMtimes() map[string]time.Time {
+	st.mu.Lock()
+	defer st.mu.Unlock()
+	m := make(map[string]time.Time, len(st.mtimes))
+	for k, v := range st.mtimes {
+		m[k] = v
+	}
+	return m
+}
+
+func RestoreMtimes(m map[string]time.Time) {
+	st.mu.Lock()
+	defer st.mu.Unlock()
+	st.mtimes = make(map[string]time.Time, len(m))
+	for k, v := range m {
+		st.mtimes[k] = v
+	}
+}
+
+// noteBytes records the size of the transfer of the operation just logged.
+func noteBytes(n int) {
+	st.mu.Lock()
+	if st.logging && len(st.log) > 0 {
+		st.log[len(st.log)-1].Bytes = n
+	}
+	st.mu.Unlock()
+}
+
 // Mtime returns the simulated modification time of a path, if stamped.
 func Mtime(path string) (time.Time, bool) {
 	st.mu.Lock()
@@ -325,6 +355,9 @@ func Enter(op, path string) (decision, error) {
 	case "halt-after":
 		d.haltAfter = true
 	case "short-halt":
+		if op != "read" && op != "write" && op != "writeat" {
+			halt(proc) // nothing to cut short: the process dies before the operation
+		}
 		d.short = hit.Short
 		d.haltMid = true
 	}
@@ -716,6 +749,7 @@ func (f *File) write(op string, b []byte, off int64, at bool) (int, error) {
 	if err != nil {
 		return 0, err
 	}
+	noteBytes(len(b))
 	if d.fail != nil && d.short < 0 {
 		return 0, d.fail
 	}
